@@ -820,10 +820,27 @@ class Interp:
         return [("cont", st, None)]
 
     def st_Assign(self, s, st):
+        if isinstance(s.value, (ast.DictComp, ast.ListComp, ast.SetComp, ast.GeneratorExp)) and self.dead_targets(s):
+            # a comprehension whose value is never read anywhere in the function: dropped (comprehensions have no side effects here)
+            self.ctx.dropped.append("dead assignment `%s = <comprehension>` at line %d (target never read in the function)"
+                                    % (ast.unparse(s.targets[0]), s.lineno))
+            return [("fall", st, None)]
         v = self.ev(s.value, st)
         for t in s.targets:
             self.assign(t, v, st, s)
         return [("fall", st, None)]
+
+    def dead_targets(self, s):
+        names = []
+        for t in s.targets:
+            if not isinstance(t, ast.Name):
+                return False
+            names.append(t.id)
+        fn = self.ctx.fn
+        for n in ast.walk(fn):
+            if isinstance(n, ast.Name) and isinstance(n.ctx, ast.Load) and n.id in names:
+                return False
+        return True
 
     def st_AnnAssign(self, s, st):
         if s.value is not None:
